@@ -9,10 +9,10 @@ extern "C" {
 #include "a/que.h"
 }
 
-enum { L_RECYCLE, L_QSWAP_NONEMPTY, L_ESWAP, L_INSERT_MID, L_REMOVE_MID, L_SORT_FORE, L_SORT_BACK, L_PUSH_SORT, L_DROP, L_SETZ_GROW, L_AT_NEG, L_BIGIDX, L_FAULT_HIT, L_FAULT_LATE, L_LEN16, L_FOREACH, L_ESWAP_ADJ };
+enum { L_RECYCLE, L_QSWAP_NONEMPTY, L_ESWAP, L_INSERT_MID, L_REMOVE_MID, L_SORT_FORE, L_SORT_BACK, L_PUSH_SORT, L_DROP, L_SETZ_GROW, L_AT_NEG, L_BIGIDX, L_FAULT_HIT, L_FAULT_LATE, L_LEN16, L_FOREACH, L_ESWAP_ADJ, L_BULK, L_POOL33 };
 static char const *const labels[] = {"pull_then_two_pushes_recycling", "queue_swap_nonempty", "element_swap", "insert_in_middle", "remove_in_middle",
                                      "sort_fore", "sort_back", "push_sort", "drop_nonempty", "setz_larger_element", "at_negative_index", "index_ge_2^32",
-                                     "fault_hit_library_request", "fault_not_in_first_op", "len_ge_16", "foreach_macro", "element_swap_adjacent", nullptr};
+                                     "fault_hit_library_request", "fault_not_in_first_op", "len_ge_16", "foreach_macro", "element_swap_adjacent", "bulk_push_or_pull_run", "recycling_pool_gt_32_nodes", nullptr};
 static char const *const metrics[] = {"max_len", "faulty_executions", nullptr};
 static uint8_t const dict[] = {3, 4, 5, 6, 11, 12, 13};
 #ifdef VP_FAULT
@@ -103,6 +103,7 @@ static void verify(Run &r, Q &q, char const *after)
     else { VP_CHECK(cx, f == nullptr && b == nullptr, "que:fore_back_empty", "after %s: fore/back of an empty queue are not null", after); }
     cx.metric(0, double(n));
     if (n >= 16) { cx.label(L_LEN16); }
+    if (q.q->cur_ > 32) { cx.label(L_POOL33); }
 }
 
 static void expect_fault(Run &r, uint64_t fb, char const *op)
@@ -381,10 +382,53 @@ static void run_history(Tape &t, Ctx &cx, uint64_t fail_at, int mode, uint64_t *
         ++cx.rep->subcases;
         uint8_t opb = t.u8();
         Q &q = r.qs[(opb >> 7) & 1];
-        uint8_t op = (opb & 0x7F) % 16;
+        uint8_t op = (opb & 0x7F) % 19;
         cx.hash.add(opb);
         switch (op)
         {
+        case 18: {
+            // scenario: fill to a count at / around the pool-growth thresholds, pull a few single elements, then drop or setz
+            static unsigned const K[] = {7, 8, 9, 16, 17, 24, 25, 32, 33, 40, 48, 49, 56, 57, 64, 65};
+            unsigned k = K[t.u8() % 16], j = 1 + t.u8() % 4;
+            uint8_t fin = t.u8() % 4;
+            for (unsigned i = 0; i < k && q.m.size() < 200; ++i) { op_push(r, q, t, 0, 0); }
+            for (unsigned i = 0; i < j && !q.m.empty(); ++i) { op_pull(r, q, t, int(i % 2)); }
+            cx.label(L_BULK);
+            if (fin <= 1)
+            {
+                for (int attempt = 0; attempt < 2; ++attempt)
+                {
+                    uint64_t fb = g_shim.faults;
+                    cx.log("drop (%zu elements)\n", q.m.size());
+                    int rc = a_que_drop(q.q, nullptr);
+                    if (rc != A_SUCCESS)
+                    {
+                        VP_CHECK(cx, rc == A_OMEMORY, "que:drop_return", "drop returned %d", rc);
+                        expect_fault(r, fb, "drop");
+                        verify(r, q, "failed drop");
+                        if (r.fault_mode == 1 && attempt == 0) { continue; }
+                        break;
+                    }
+                    if (!q.m.empty()) { cx.label(L_DROP); }
+                    q.m.clear();
+                    verify(r, q, "drop");
+                    break;
+                }
+            }
+            break; }
+        case 16: {
+            // run of pushes: builds long queues in three tape bytes
+            unsigned k = 1 + t.u8() % 80;
+            for (unsigned i = 0; i < k && q.m.size() < 200; ++i) { op_push(r, q, t, (t.pos() + i) % 7 == 0 ? 1 : 0, 0); }
+            cx.label(L_BULK);
+            break; }
+        case 17: {
+            // run of single pulls: drains the queue node by node into the recycling pool
+            unsigned k = 1 + t.u8() % 80;
+            int kind = t.u8() % 3;
+            for (unsigned i = 0; i < k && !q.m.empty(); ++i) { op_pull(r, q, t, kind == 2 ? int(i % 2) : kind); }
+            cx.label(L_BULK);
+            break; }
         case 0: op_query(r, q, t); break;
         case 1: case 14: op_push(r, q, t, 0, 0); break;
         case 2: case 15: op_push(r, q, t, 1, 0); break;
